@@ -7,7 +7,7 @@
                   one Tokenizer (fresh = TRUE: the tokenizer is reset(buf) before every operation); tok0 is the value the returned-token variable had before every call *)
 EXTENDS CharSetTok, ConfLib
 Case == Cases[i]
-NoDup(q) == \A x \in 1..Len(q), y \in 1..Len(q) : x < y => q[x] < q[y]
+NoDup(q) == \A x \in 1..(Len(q) - 1) : q[x] < q[x + 1]
 IsSet(q, S) == NoDup(q) /\ ToSet(q) = S
 
 \* ---- P-layer ---------------------------------------------------------------------------------------------------
